@@ -441,12 +441,16 @@ impl LanguageIdentifier {
                 CharacterDirection::TTB
             }
             (Some(lang), _) if layout_table::LANGS_CHARACTER_DIRECTION_RTL.contains(&lang) => {
+                // The likely script refines the answer only when the identifier does not
+                // carry a script of its own.
                 #[cfg(feature = "likelysubtags")]
-                if let Some((_, Some(script), _)) =
-                    likelysubtags::maximize(self.language, None, self.region)
-                {
-                    if layout_table::SCRIPTS_CHARACTER_DIRECTION_LTR.contains(&script.into()) {
-                        return CharacterDirection::LTR;
+                if self.script.is_none() {
+                    if let Some((_, Some(script), _)) =
+                        likelysubtags::maximize(self.language, None, self.region)
+                    {
+                        if layout_table::SCRIPTS_CHARACTER_DIRECTION_LTR.contains(&script.into()) {
+                            return CharacterDirection::LTR;
+                        }
                     }
                 }
                 CharacterDirection::RTL
